@@ -150,6 +150,21 @@ def queue_ra_part():
         record(f"TLC finds a data race on QueueRA when {k} is set to {v}", not r.ok)
 
 
+def slot_ra_part():
+    import slotdefs
+    c = orderings.extract_slot()
+    mod, cfg = slotdefs.write_mc("st_code", c, 2, WD)
+    r = run_tlc(mod, cfg, WD, workers=4, timeout=600)
+    record("SlotRA holds under the orderings extracted from util/slot.rs", r.ok)
+    for k, v in (("OWWrite", "rlx"), ("FWClosed", False), ("OWDropLoad", "rlx"), ("OWDropRmw", "rel"), ("ORRead", "rlx"),
+                 ("ORDropLoad", "rlx"), ("ORDropRmw", "acq")):
+        c2 = dict(c)
+        c2[k] = v
+        mod, cfg = slotdefs.write_mc("st_weak_" + k, c2, 2, WD)
+        r = run_tlc(mod, cfg, WD, workers=4, timeout=600)
+        record(f"TLC finds a race / racy deallocation on SlotRA when {k} is set to {v}", not r.ok)
+
+
 def pool_part():
     import check_pool
     import pooldefs
@@ -255,6 +270,7 @@ def run():
     task_part()
     ordering_part()
     queue_ra_part()
+    slot_ra_part()
     pool_part()
     chan_part()
     coverage_part()
